@@ -10,7 +10,7 @@ import copy
 import json
 import os
 import types
-from typing import Dict, List, Mapping, Sequence
+from typing import Dict, List, Mapping, Sequence, Union
 
 from jsonargparse import ActionConfigFile, ArgumentParser
 
@@ -32,6 +32,7 @@ KEYS = {
     "hy_l": ("list", [0]),  # option spelled --hy-l
     "sq": ("list", [0]),  # Sequence with a tuple default
     "ll": ("llist", [[0]]),  # list of lists
+    "ul": ("list", [0]),  # Union[int, List[int]]: the scalar member is written first, appends still go to the list
 }
 ARGV_NAME = {"hy_l": "hy-l"}
 
@@ -53,6 +54,7 @@ def build(default_files, default_env=False, mode="yaml"):
     p.add_argument("--hy-l", type=List[int], default=[0])
     p.add_argument("--sq", type=Sequence[int], default=(0,))
     p.add_argument("--ll", type=List[List[int]], default=[[0]])
+    p.add_argument("--ul", type=Union[int, List[int]], default=[0])
     return p
 
 
@@ -306,6 +308,8 @@ def scenario(ctx, i, rng):
                 return call(p.parse_path, payload, **kw)
 
             o = run_once()
+            if i % 2 == 0:
+                call(p.format_help)  # showing the help (with the values of the default config files) is not a source
             # the fold starts from the defaults in the source code every time: the same sources on the same parser again,
             # or only the standing sources (default files, environment) without this call's own
             o_again, again = None, None
